@@ -24,7 +24,7 @@ STAGES = {
     "counts": {"counts", "turns", "loops"},
     "flow": {"tunnels", "threads"},
     "functions": {"functions"},
-    "more": {"choice_tags", "typed_vars", "if_diverts", "stitches"},
+    "more": {"choice_tags", "typed_vars", "if_diverts", "stitches", "cond_choices"},
 }
 DEFAULT = set().union(*STAGES.values())
 
@@ -331,6 +331,9 @@ def run(tier, seed, features=None, n=None, debug=False):
     lib.log("[C01] programs=%d cases=%d turns=%d states=%d mismatches=%d %s explore=%s wall=%.1fs" % (
         len(progs), len(all_cases), turns, states, nviol, json.dumps(per_fp), {k: v for k, v in skipped_total.items() if isinstance(v, int)},
         time.time() - t0))
+    # the same property against the executable model of the host interface (absolute oracle, Tier-S programs)
+    import hostmodel
+    nviol += hostmodel.check("C01", "plain", tier, seed)
     return nviol
 
 
